@@ -397,7 +397,8 @@ fn observe(d: &Document) -> Obs {
         let mut cdeps = BTreeSet::new();
         let chunks = page_content(d, id, &mut cdeps);
         let toks: Vec<Vec<u8>> = chunks.as_ref().map(|c| c.iter().flat_map(|x| tokens(x)).collect()).unwrap_or_default();
-        let content = chunks.map(|c| c.concat());
+        // the streams of a page are divided at token boundaries (7.8.2): the reading API keeps them apart with a line feed
+        let content = chunks.map(|c| { let mut out: Vec<u8> = Vec::new(); for x in c.iter() { if !out.is_empty() { out.push(b'\n'); } out.extend_from_slice(x); } out });
         let mut rdeps = BTreeSet::new();
         let us = usable(d, id, &mut rdeps);
         let lib = d.get_page_content(id);
@@ -482,7 +483,7 @@ fn new_doc(version: &str, xref_stream: bool, objs: Vec<(Id, Object)>, root: Id, 
 
 fn z(n: u32) -> Id { (n, 0) }
 
-fn cat(a: &[u8], b: &[u8]) -> Vec<u8> { let mut v = a.to_vec(); v.extend_from_slice(b); v }
+fn cat(a: &[u8], b: &[u8]) -> Vec<u8> { let mut v = a.to_vec(); if !v.is_empty() { v.push(b'\n'); } v.extend_from_slice(b); v }   // two streams of one page are read with a line feed between them
 
 fn seeds() -> Vec<Seed> {
     let mut out = vec![];
@@ -896,7 +897,14 @@ fn strip(o: &Object, ids: &BTreeSet<Id>, drop_count: bool) -> Object {
     match o {
         Object::Array(a) => Object::Array(a.iter().filter(|x| !is_ref_in(x, ids)).map(|x| strip(x, ids, drop_count)).collect()),
         Object::Dictionary(d) => Object::Dictionary(strip_dict(d, ids, drop_count)),
-        Object::Stream(s) => { let mut n = s.clone(); n.dict = strip_dict(&s.dict, ids, drop_count); Object::Stream(n) }
+        Object::Stream(s) => {
+            let mut n = s.clone();
+            n.dict = strip_dict(&s.dict, ids, drop_count);
+            // a stream whose indirect Length was one of the deleted objects receives a direct Length (library fix 6f26179):
+            // compare such streams modulo their Length entry
+            if !ids.is_empty() && matches!(s.dict.get(b"Length"), Ok(Object::Integer(_))) | s.dict.get(b"Length").is_err() { n.dict.remove(b"Length"); }
+            Object::Stream(n)
+        }
         _ => o.clone(),
     }
 }
